@@ -39,6 +39,8 @@ CLAIMED["C13"]=("fee-less classification (every message a create-price message);
   "structured-dominance facts with call-outcome and comparison normal forms over type-checked AST; store effect summaries for the nonce writer set; decorator-order table read from the chain constructor", "4/C13")
 CLAIMED["C15"]=("per-identifier callback never stops the iteration and ticks at most once; start gate and strict tick condition classes; first tick sets number 1 / configured start, later ticks +1 and start += duration; end(n) before the increment, start(n) after it on every tick incl. the first, record stored between them under its own identifier; multi-hook fan-out over every subscriber in slice order; registration order distribution, operator, dogfood, mint, AVS; who may notify / write epoch records",
   "dataflow-shape, ordering and comparison-class rules over type-checked AST; store effect summaries and call graph for the writer/caller sets", "4/C15")
+CLAIMED["C08"]=("order-insensitivity of every range-over-map loop reachable from block execution / transactions / ante / precompiles / hooks / InitGenesis (commutative accumulations, idempotent assignments, running extrema, writes addressed by the iteration variables, map-ordered slices followed interprocedurally to a total-order sort or order-insensitive consumers); absence of wall-clock, randomness, environment and goroutine use; the set of package-level variables written; no shared mutable object between the CheckTx copy and the deliver-state oracle aggregator",
+  "loop-carried-dependence classification of map iterations over type-checked AST with interprocedural slice-fate tracking; call-graph reachability for forbidden sources and global writes; aliasing rules on the copy constructor", "4/C08")
 NA={}
 def main():
     checks=[]
